@@ -1,19 +1,36 @@
 import vf, slicer
-def record_jobs(prop, tier, entries=('c10_record_f', 'c10_record_h')):
+def units():
+    return [vf.Unit('cmdline/state.c', flags=vf.PATHMAX64, transform=slicer.slices(['f', 'h']), remove=['__CPROVER_file_local_state_c_decoding_error']),
+            vf.Unit('cmdline/stream.c', flags=vf.PATHMAX64)]
+def record_jobs(prop, tier):
     quick = tier == 'quick'
-    U = [vf.Unit('cmdline/state.c', flags=vf.PATHMAX64, transform=slicer.slices(['f', 'h']), remove=['__CPROVER_file_local_state_c_decoding_error']),
-         vf.Unit('cmdline/stream.c', flags=vf.PATHMAX64)]
+    U = units()
     J = []
-    for e in entries:
-        for bs in ([256] if quick else [256, 65536]):
-            J.append(vf.Job('%s/records/%s/bs%d' % (prop, e, bs), ['C10_records.c', 'stubs/log_stubs.c'], units=U, entry=e, defines=['BSIZE=%d' % bs], cflags=vf.PATHMAX64, unwind=18, timeout=2400 if quick else 7200, mem_gb=12,
-                            native=False, decisive=r'VF:|unwinding', cost=200,
-                            funcs=['state_read_content (record handler %s, verbatim slice)' % e[-1], 'sgetb32', 'sgetb64', 'sgetbs', 'sread', 'sputb32', 'sputb64', 'sputbs', 'swrite', 'sflush', 'sfill'],
-                            sample={'record': e[-1], 'block_size': bs, 'field values (size, time, inode, name bytes, positions, counts, states, hashes), hash size 8/16, clear_past_hash, force_nocopy, force_realloc': 'symbolic', 'blocks followed to the end': 3}))
+    def mk(name, entry, defs, sample):
+        J.append(vf.Job('%s/records/%s' % (prop, name), ['C10_records.c', 'stubs/log_stubs.c'], units=U, entry=entry, defines=defs, cflags=vf.PATHMAX64, unwind=18, timeout=1800 if quick else 7200, mem_gb=12,
+                        native=False, decisive=r'VF:|unwinding', cost=200, flags=['--max-field-sensitivity-array-size', '160'],
+                        funcs=['state_read_content (record handler %s, verbatim slice)' % entry[-1], 'sgetc', 'sgetb32', 'sgetb64', 'sgetbs', 'sread', 'sfill'], sample=sample))
+    bss = [256] if quick else [256, 65536]
+    FIELDS = {0: 'none (all numeric fields small constants)', 1: 'size (all 64-bit values giving this block count)', 2: 'mtime seconds (all 64-bit values)', 3: 'inode (all 64-bit values)', 4: 'nanoseconds field', 5: 'first run position and array size (all 32-bit values)'}
+    for bs in bss:
+        for hsz in (16, 8):
+            for nblk, run1 in ([(1, 1), (2, 1), (2, 2)] if quick else [(1, 1), (2, 1), (2, 2), (3, 1), (3, 2), (3, 3)]):
+                if quick and hsz == 8 and (nblk, run1) != (2, 1):
+                    continue
+                mk('f/blocks%d-run%d/hash%d/bs%d' % (nblk, run1, hsz, bs), 'c10_record_f', ['BSIZE=%d' % bs, 'NBLK=%d' % nblk, 'RUN1=%d' % run1, 'HSZ=%d' % hsz, 'SYMFIELD=0'],
+                   {'record': 'f', 'blocks': nblk, 'blocks in first run': run1, 'block_size': bs, 'hash size': hsz, 'symbolic': 'name bytes, run states, hashes, clear_past_hash, force_nocopy, force_realloc'})
+        for fld in (1, 2, 3, 4, 5):
+            mk('f/field%d/bs%d' % (fld, bs), 'c10_record_f', ['BSIZE=%d' % bs, 'NBLK=1', 'RUN1=1', 'HSZ=16', 'SYMFIELD=%d' % fld],
+               {'record': 'f', 'blocks': 1, 'block_size': bs, 'numeric field ranging over all its values': FIELDS[fld]})
+        for nblk in ([] if quick else [1, 2]):      # short deleted runs: run out of memory at 12 GB in this sandbox, thorough tier only (reported undecided if they do)
+            for df in (0, 1):
+                mk('h/deleted%d-%s/bs%d' % (nblk, 'first' if df else 'second', bs), 'c10_record_h', ['BSIZE=%d' % bs, 'NBLK=%d' % nblk, 'DELFIRST=%d' % df, 'HSZ=16'],
+                   {'record': 'h', 'deleted run': nblk, 'free run': 5, 'deleted run comes first': bool(df), 'hashes, clear_past_hash': 'symbolic'})
+        mk('h/deleted-long/bs%d' % bs, 'c10_record_h', ['BSIZE=%d' % bs, 'BIGRUN', 'DELFIRST=1', 'HSZ=16'],
+           {'record': 'h', 'deleted run': 'symbolic count > 3 (all 32-bit values), followed up to the allocation of its pseudo file', 'block_size': bs})
     return J
 def jobs(tier, seed):
     J = record_jobs('C10', tier)
-    U = J[0].units
-    J.append(vf.Job('C10/records/negctl', ['C10_records.c', 'stubs/log_stubs.c'], units=U, entry='c10_records_negctl', defines=['NEGCTL'], cflags=vf.PATHMAX64, unwind=18, kind='negctl', native=False, decisive=r'VF:|unwinding',
+    J.append(vf.Job('C10/records/negctl', ['C10_records.c', 'stubs/log_stubs.c'], units=units(), entry='c10_records_negctl', defines=['NEGCTL'], cflags=vf.PATHMAX64, unwind=18, kind='negctl', native=False, decisive=r'VF:|unwinding', flags=['--max-field-sensitivity-array-size', '160'],
                     sample={'wrong_oracle': 'past hash of a pending block kept although past hashes are distrusted'}))
     return J
